@@ -486,100 +486,6 @@ def _lower_try_for_each(body, bi, closures):
     return True
 
 
-_SEARCH = {"core::iter::Iterator::find": "ref", "core::iter::Iterator::position": "val", "core::iter::Iterator::any": "val",
-           "core::iter::Iterator::all": "val", "core::iter::Iterator::find_map": "val"}
-
-
-def _lower_search(body, bi, closures, skip):
-    """`it.find(pred)`, `it.position(pred)`, `it.any(pred)`, `it.all(pred)`, `it.find_map(f)` with a closure of this crate -> the
-    loop they are documented to be (next(); None => the neutral answer; Some(x) => the closure inlined; a deciding result ends
-    the loop).  Functions that used one of these when the rules were written (spec/known_functions.json "search_adaptor_users")
-    keep the call: their rules read it."""
-    blk = body["blocks"][bi]
-    t = blk["term"]
-    if t["k"] != "Call" or not t.get("callee") or t.get("target") is None or t["dest"]["proj"] or len(t["args"]) != 2:
-        return False
-    nm = strip_generics(t["callee"])
-    if nm not in _SEARCH or strip_generics(body["path"]).split("::{closure")[0] in skip:
-        return False
-    kind = nm.split("::")[-1]
-    clo, clo_local = _closure_of(body, t["args"][1], closures)
-    recv = t["args"][0]
-    if clo is None or clo["arg_count"] != 2 or recv.get("k") not in ("move", "copy") or recv["p"]["proj"]:
-        return False
-    full = t.get("callee_full") or ""
-    if not (full.startswith("<") and " as core::iter::Iterator>" in full):
-        return False
-    ity = full[1:full.index(" as core::iter::Iterator>")]
-    sp, dest, cont = t["sp"], t["dest"], t["target"]
-    rl = recv["p"]["l"]
-    by_value = not body["locals"][rl]["ty"].startswith("&")
-    L, B = body["locals"], body["blocks"]
-    item_ty = clo["locals"][2]["ty"]
-    if _SEARCH[nm] == "ref":
-        if not item_ty.startswith("&"):
-            return False
-        item_ty = item_ty[1:].strip()
-    opt_l = len(L)
-    L.append({"ty": "core::option::Option<%s>" % item_ty, "tag": "adt:core::option::Option", "name": None})
-    d_l = len(L)
-    L.append({"ty": "isize", "tag": "isize", "name": None})
-    ref_l = rl
-    pre = []
-    if by_value:
-        ref_l = len(L)
-        L.append({"ty": "&mut " + ity, "tag": "ref", "name": None})
-        pre.append(_assign(_place(ref_l), {"k": "Ref", "mut": True, "p": _place(rl)}, sp))
-    idx_l = None
-    if kind == "position":
-        idx_l = len(L)
-        L.append({"ty": "usize", "tag": "usize", "name": None})
-        pre.append(_assign(_place(idx_l), {"k": "Use", "op": {"k": "const", "ty": "usize", "tag": "usize", "val": 0}}, sp))
-    head, test, done, after = len(B), len(B) + 1, len(B) + 2, len(B) + 3
-    B.extend([None, None, None, None])
-    item = _place(opt_l, [["downcast", 1, "Some"], ["field", 0, "0"]])
-    entry, lbase = _inline(body, clo, clo_local, [(_SEARCH[nm], item)], after, sp)
-    res = _place(lbase)
-    B[head] = {"stmts": [], "cleanup": False, "term": {
-        "k": "Call", "callee": "core::iter::Iterator::next", "callee_full": "<%s as core::iter::Iterator>::next" % ity, "callee_crate": "core", "callee_local": False,
-        "targs": [ity], "resolved": "<%s as core::iter::Iterator>::next" % ity, "resolved_kind": "item", "trait_unresolved": False, "trait": "core::iter::Iterator",
-        "args": [{"k": "copy", "p": _place(ref_l)}], "dest": _place(opt_l), "target": test, "unwind": None, "sp": sp, "fn_sp": t.get("fn_sp", sp), "snip": t.get("snip", "")}}
-    B[test] = {"stmts": [_assign(_place(d_l), {"k": "Discriminant", "p": _place(opt_l), "adt": OPT, "variants": VARIANTS[OPT]}, sp)], "cleanup": False,
-               "term": {"k": "SwitchInt", "discr": {"k": "move", "p": _place(d_l)}, "discr_ty": "isize", "targets": [[1, entry]], "otherwise": done, "sp": sp, "lowered": nm}}
-    cbool = lambda v: {"k": "Use", "op": {"k": "const", "ty": "bool", "tag": "bool", "val": v}}
-    hit = len(B)
-    B.append(None)
-    again = head
-    if kind == "position":
-        again = len(B)
-        B.append({"stmts": [_assign(_place(idx_l), {"k": "BinaryOp", "op": "Add", "l": {"k": "copy", "p": _place(idx_l)}, "r": {"k": "const", "ty": "usize", "tag": "usize", "val": 1}}, sp)],
-                  "term": _goto(head, sp), "cleanup": False})
-    if kind == "find":
-        none, some = _adt_agg(OPT, 0, []), _adt_agg(OPT, 1, [{"k": "move", "p": item}])
-    elif kind == "position":
-        none, some = _adt_agg(OPT, 0, []), _adt_agg(OPT, 1, [{"k": "copy", "p": _place(idx_l)}])
-    elif kind == "any":
-        none, some = cbool(0), cbool(1)
-    elif kind == "all":
-        none, some = cbool(1), cbool(0)
-    else:
-        none, some = _adt_agg(OPT, 0, []), _use(res, "move")
-    B[done] = {"stmts": [_assign(dest, none, sp)], "term": _goto(cont, sp), "cleanup": False}
-    B[hit] = {"stmts": [_assign(dest, some, sp)], "term": _goto(cont, sp), "cleanup": False}
-    if kind == "find_map":
-        d2 = len(L)
-        L.append({"ty": "isize", "tag": "isize", "name": None})
-        B[after] = {"stmts": [_assign(_place(d2), {"k": "Discriminant", "p": res, "adt": OPT, "variants": VARIANTS[OPT]}, sp)], "cleanup": False,
-                    "term": {"k": "SwitchInt", "discr": {"k": "move", "p": _place(d2)}, "discr_ty": "isize", "targets": [[0, again]], "otherwise": hit, "sp": sp}}
-    elif kind == "all":
-        B[after] = {"stmts": [], "cleanup": False, "term": {"k": "SwitchInt", "discr": {"k": "move", "p": res}, "discr_ty": "bool", "targets": [[0, hit]], "otherwise": again, "sp": sp}}
-    else:
-        B[after] = {"stmts": [], "cleanup": False, "term": {"k": "SwitchInt", "discr": {"k": "move", "p": res}, "discr_ty": "bool", "targets": [[0, again]], "otherwise": hit, "sp": sp}}
-    blk["stmts"].extend(pre)
-    blk["term"] = _goto(head, sp)
-    return True
-
-
 # ---------------------------------------------------------------------------------------------------------------------
 # jump threading: the constant a helper returns decides the caller's test of it
 
@@ -1331,9 +1237,6 @@ def lower_adaptors(raw):
     _INLINED.clear()
     # innermost closures first, so that an inlined body is already lowered
     order = sorted(raw["bodies"], key=lambda b: -b["path"].count("{closure"))
-    import json as _json, os as _os
-    skip = set(_json.load(open(_os.path.join(_os.path.dirname(_os.path.dirname(_os.path.abspath(__file__))), "spec", "known_functions.json"))).get("search_adaptor_users", []))
-
     def one_pass():
         k = 0
         live = {id(b) for b in raw["bodies"]}
@@ -1342,7 +1245,7 @@ def lower_adaptors(raw):
                 continue
             for bi in range(len(body["blocks"])):
                 nb0 = len(body["blocks"])
-                if _lower_call(body, bi, closures) or _lower_try_for_each(body, bi, closures) or _lower_search(body, bi, closures, skip) or _lower_plain(body, bi) or _lower_bool_then(body, bi, closures):
+                if _lower_call(body, bi, closures) or _lower_try_for_each(body, bi, closures) or _lower_plain(body, bi) or _lower_bool_then(body, bi, closures):
                     k += 1
                     for nb in body["blocks"][nb0:]:
                         nb["low"] = True
